@@ -4,7 +4,7 @@ import os as _os
 from .common import *  # noqa: F401,F403
 from .common import Contract, Registry, LoopSpec, BASE_ENV, INIT, POSIX_PY, bounded_sweep
 from .frontproc import make_process
-from vc.interp import PS_EXC
+from vc.interp import PS_EXC, ModuleSrc
 
 REGISTRY = Registry()
 TRUSTED = ["virtual clock: _timer() reads ghost 'now'; only _sleep(d) advances it (by exactly d); a blocking "
@@ -136,7 +136,7 @@ def setup_pwait(it, cfg):
     o = make_process(it)
     sentinel = Opaque("SENTINEL")
     it.env_over["__init__._SENTINEL"] = sentinel
-    native = it.fresh("native_result", "Int")
+    native = None if cfg.get("native") == "none" else it.fresh("native_result", "Int")
     calls = []
 
     def pw(it2, timeout=None):
@@ -158,20 +158,62 @@ def setup_pwait(it, cfg):
     else:
         t = it.fresh("timeout", "Real")
     return {"args": {"self": o, "timeout": t},
-            "spec": {"native": native, "cached": cached, "cv": o.attrs["_exitcode"], "t": t}, "values": [native]}
+            "spec": {"native": native, "cached": cached, "cv": o.attrs["_exitcode"], "t": t},
+            "values": [native] if native is not None else []}
 
 
 REGISTRY.add(Contract(
     "C15", INIT, "Process.wait", setup=setup_pwait, env=ENV,
-    configs=[{"cached": c, "timeout": t} for c in (True, "none", False) for t in ("none", "some")],
+    configs=[{"cached": c, "timeout": t} for c in (True, "none", False) for t in ("none", "some")] +
+            [{"cached": False, "timeout": "none", "native": "none"}],      # nothing to collect: None is cached as well
     ensures=[
         "implies(cached, (result is cv or result == cv) and len(log) == 0)",   # later calls return the same cached value
-        "implies(not cached, result == native and self._exitcode == native and log == [('proc.wait', t)])",
+        "implies(not cached, (result is native or result == native) and (self._exitcode is native or self._exitcode == native) "
+        "and log == [('proc.wait', t)])",
         "implies(t is not None, t >= 0)",
     ],
     raises={"ValueError": ["t is not None", "not (t >= 0)", "len(log) == 0"]},
     canaries=["result == 7777"], replay="c15:pwait",
     note="negative timeout -> ValueError before anything; the exit code is cached and returned on every later call"))
+
+
+# --- Popen.wait: the subprocess module may have reaped the child already ---------------------------------------------
+
+def setup_popen_wait(it, cfg):
+    rc = {"none": None, "zero": 0, "sym": it.fresh("reaped_returncode", "Int")}[cfg["rc"]]
+    sub = Obj("subprocess.Popen", {"returncode": rc}, module=None)
+    native = it.fresh("native_result", "Int")
+    o = Obj("Popen", {"_Popen__subproc": sub, "_pid": it.fresh("pid", "Int")}, module=ModuleSrc.get(INIT))
+
+    def sup(it2, *a):
+        def w(it3, timeout=None):
+            it3.ctx.log.append(("Process.wait", timeout))
+            return native
+        return _Stub({"wait": EnvFunc("wait", w)})
+
+    it.builtins = dict(it.builtins)
+    it.builtins["super"] = EnvFunc("super", sup)
+    t = it.fresh("timeout", "Real")
+    return {"args": {"self": o, "timeout": t}, "spec": {"rc": rc, "native": native, "sub": sub, "t": t, "mode": cfg["rc"]},
+            "values": [native]}
+
+
+class _Stub:
+    def __init__(self, attrs):
+        self.attrs = attrs
+
+    def vc_getattr(self, it, name):
+        return self.attrs[name]
+
+
+REGISTRY.add(Contract(
+    "C15", INIT, "Popen.wait", setup=setup_popen_wait, env=ENV, configs=[{"rc": r} for r in ("none", "zero", "sym")],
+    ensures=["implies(mode == 'none', result == native and sub.returncode == native and log == [('Process.wait', t)])",
+             "implies(mode == 'zero', result == 0 and len(log) == 0 and sub.returncode == 0)",      # exit code 0 is a status too
+             "implies(mode == 'sym', result == rc and len(log) == 0)"],
+    raises={}, canaries=["result == 7777"], replay=None,
+    note="a status the subprocess module already collected (0 included) is returned as is; otherwise Process.wait()'s "
+         "result is returned and recorded as returncode"))
 
 
 # --- wait_procs: bounded virtual-clock simulation ----------------------------------------------------------
